@@ -497,6 +497,208 @@ fn live(ctx: &mut Ctx) {
     }
 }
 
+/// non-CONNECT requests over HTTP/3: the real `Core::listen` on a loopback UDP port (QUIC multiplexer,
+/// HTTP/3 codec, Tunnel, forwarded stream, direct forwarder) to a loopback origin that answers with a
+/// scripted byte stream in scripted segments (wall clock)
+pub fn live_h3(ctx: &mut Ctx) {
+    use crate::c02h3::{plain_hosts, LiveEndpoint};
+    use crate::h3cli::H3Client;
+    use std::io::{Read, Write};
+    use std::time::{Duration, Instant};
+    use trusttunnel::settings::*;
+    use trusttunnel::shutdown::Shutdown;
+    let Some(ep) = LiveEndpoint::start(|addr| {
+        let settings = Settings::builder()
+            .listen_address(addr)
+            .unwrap()
+            .listen_protocols(ListenProtocolSettings {
+                http1: Some(Http1Settings::builder().build()),
+                http2: Some(Http2Settings::builder().build()),
+                quic: Some(QuicSettings::builder().build()),
+            })
+            .allow_private_network_connections(true)
+            .build()
+            .unwrap();
+        trusttunnel::core::Core::new(settings, None, plain_hosts(), Shutdown::new()).unwrap()
+    }) else {
+        ctx.notes.push("c17 live h3: the endpoint's listener did not come up on loopback; nothing was run".to_string());
+        return;
+    };
+    let listener = std::net::TcpListener::bind("127.0.0.1:0").unwrap();
+    listener.set_nonblocking(true).unwrap();
+    let origin = listener.local_addr().unwrap();
+    let n = if ctx.thorough() { 120 } else { 24 };
+    for k in 0..n {
+        let body_len = *ctx.rng.pick(&[0usize, 1, 10, 1000, 40000]);
+        let body: Vec<u8> = (0..body_len).map(|i| b'a' + (i % 26) as u8).collect();
+        let framing = k % 3; // 0 Content-Length, 1 chunked, 2 close-delimited
+        let interim = ctx.rng.below(3); // 0 none, 1 "100", 2 "103" + "100"
+        let method = if k % 4 == 3 { "POST" } else { "GET" };
+        let req_body: Vec<u8> = if method == "POST" { (0..*ctx.rng.pick(&[0usize, 5, 3000])).map(|i| b'0' + (i % 10) as u8).collect() } else { vec![] };
+        // a request body travels with its Content-Length, or (every other POST) without one
+        let with_cl = method == "POST" && (k % 8 == 3);
+        let mut resp: Vec<u8> = vec![];
+        if interim == 2 {
+            resp.extend_from_slice(b"HTTP/1.1 103 Early Hints\r\nlink: </s.css>\r\n\r\n");
+        }
+        if interim >= 1 {
+            resp.extend_from_slice(b"HTTP/1.1 100 Continue\r\n\r\n");
+        }
+        let mut after_head: Vec<u8> = vec![];
+        match framing {
+            1 => {
+                resp.extend_from_slice(b"HTTP/1.1 200 OK\r\nTransfer-Encoding: chunked\r\nX-A: 1\r\nKeep-Alive: timeout=5\r\nConnection: keep-alive\r\n\r\n");
+                let sizes: Vec<usize> = (0..6).map(|_| ctx.rng.range(1, 3000) as usize).collect();
+                after_head = chunked(&body, &sizes, true, false);
+            }
+            0 => {
+                resp.extend_from_slice(format!("HTTP/1.1 200 OK\r\nContent-Length: {}\r\nX-A: 1\r\n\r\n", body.len()).as_bytes());
+                after_head.extend_from_slice(&body);
+            }
+            _ => {
+                resp.extend_from_slice(b"HTTP/1.1 200 OK\r\nX-A: 1\r\nConnection: close\r\n\r\n");
+                after_head.extend_from_slice(&body);
+            }
+        }
+        resp.extend_from_slice(&after_head);
+        let style = ctx.rng.range(0, 3);
+        let segs = segment(&mut ctx.rng, &resp, if style == 1 { 3 } else { style });
+        let client_step = *ctx.rng.pick(&[0usize, 0, 300]);
+        let desc = format!(
+            "live h3 {} (request body {} bytes{}) answered with {} body bytes, {}, {} interim response(s), in {} segments, client takes {} per read",
+            method,
+            req_body.len(),
+            if method == "POST" { if with_cl { ", Content-Length" } else { ", no Content-Length" } } else { "" },
+            body_len,
+            ["Content-Length", "chunked", "close-delimited"][framing],
+            interim,
+            segs.len(),
+            if client_step == 0 { "everything".to_string() } else { client_step.to_string() }
+        );
+        ctx.stat("live_h3_runs");
+        let mut cl = match H3Client::connect(ep.addr, Some("localhost"), &[b"h3"], 1 << 20, Duration::from_secs(3)) {
+            Ok(c) => c,
+            Err(e) => {
+                ctx.oracle_failure("live-forward", &format!("{}: QUIC handshake {:?}", desc, e));
+                continue;
+            }
+        };
+        cl.read_step = client_step;
+        let mut hs = vec![("accept".to_string(), b"*/*".to_vec()), ("proxy-authorization".to_string(), b"Basic dTpw".to_vec()), ("te".to_string(), b"trailers".to_vec())];
+        if with_cl {
+            hs.push(("content-length".to_string(), req_body.len().to_string().into_bytes()));
+        }
+        let Some(id) = cl.request(method, Some("http"), &origin.to_string(), Some("/p?q=1"), &hs, method == "GET") else {
+            ctx.oracle_failure("live-forward", &format!("{}: request stream refused", desc));
+            continue;
+        };
+        if method == "POST" {
+            let mut off = 0;
+            let t0 = Instant::now();
+            while off < req_body.len() && t0.elapsed() < Duration::from_secs(3) {
+                off += cl.send_body(id, &req_body[off..], false).unwrap_or(0);
+            }
+            let t0 = Instant::now();
+            while !cl.finish(id).unwrap_or(true) && t0.elapsed() < Duration::from_secs(2) {}
+        }
+        // the origin: accept, read the request (head and announced / sent body), answer in segments, close
+        let t0 = Instant::now();
+        let conn = loop {
+            cl.pump();
+            if let Ok((c, _)) = listener.accept() {
+                break Some(c);
+            }
+            if t0.elapsed() > Duration::from_secs(3) {
+                break None;
+            }
+            std::thread::sleep(Duration::from_millis(1));
+        };
+        let Some(mut conn) = conn else {
+            ctx.oracle_failure("live-forward", &format!("{}: the origin saw no connection (client status {:?})", desc, cl.stream(id).status));
+            continue;
+        };
+        conn.set_nodelay(true).ok();
+        conn.set_nonblocking(true).ok();
+        let mut req = vec![];
+        let t0 = Instant::now();
+        loop {
+            cl.pump();
+            let mut buf = [0u8; 8192];
+            if let Ok(n) = conn.read(&mut buf) {
+                req.extend_from_slice(&buf[..n]);
+            }
+            if let Some(p) = req.windows(4).position(|w| w == b"\r\n\r\n") {
+                if req.len() >= p + 4 + req_body.len() {
+                    break;
+                }
+            }
+            if t0.elapsed() > Duration::from_secs(3) {
+                break;
+            }
+        }
+        conn.set_nonblocking(false).ok();
+        for sg in &segs {
+            let _ = conn.write_all(sg);
+            let t0 = Instant::now();
+            while t0.elapsed() < Duration::from_millis(2) {
+                cl.pump();
+            }
+        }
+        let t0 = Instant::now();
+        while t0.elapsed() < Duration::from_millis(10) {
+            cl.pump();
+        }
+        drop(conn);
+        cl.reading = true;
+        cl.wait(Duration::from_secs(4), |c| c.streams.get(&id).map(|s| s.finished || s.reset.is_some()).unwrap_or(false));
+        let st = cl.stream(id);
+        cl.close();
+        let req_s = String::from_utf8_lossy(&req).to_string();
+        let lower = req_s.to_ascii_lowercase();
+        let head_end = req.windows(4).position(|w| w == b"\r\n\r\n").map(|p| p + 4).unwrap_or(req.len());
+        let mut problems = vec![];
+        if !req_s.starts_with(&format!("{} /p?q=1 HTTP/1.1\r\n", method)) {
+            problems.push("the forwarded request line is not the client's method and path".to_string());
+        }
+        if !lower.contains(&format!("\r\nhost: {}\r\n", origin)) || !lower.contains("\r\naccept: */*\r\n") {
+            problems.push("the forwarded request lacks the Host of the target or the client's Accept header".to_string());
+        }
+        if lower.contains("\r\nproxy-authorization:") {
+            problems.push("Proxy-Authorization was forwarded to the origin".to_string());
+        }
+        if req[head_end..] != req_body[..] && !(req.len() > head_end && lower[..head_end].contains("transfer-encoding: chunked")) {
+            problems.push(format!("the origin received {} body bytes, the client sent {}", req.len() - head_end, req_body.len()));
+        }
+        let unframed = req.len() > head_end && !lower[..head_end].contains("\r\ncontent-length:") && !lower[..head_end].contains("\r\ntransfer-encoding:");
+        if st.status != Some(200) {
+            problems.push(format!("the client got status {:?}", st.status));
+        }
+        if st.body != body {
+            problems.push(format!("the client got {} body bytes, the origin's body has {} (equal: false; first difference at {:?})", st.body.len(), body.len(), st.body.iter().zip(body.iter()).position(|(a, b)| a != b)));
+        }
+        if !st.finished || st.reset.is_some() {
+            problems.push(format!("the response stream did not end cleanly (finished {}, reset {:?})", st.finished, st.reset));
+        }
+        if !st.headers.iter().any(|(n, v)| n == "x-a" && v == "1") {
+            problems.push("the origin's X-A header did not reach the client".to_string());
+        }
+        for hop in ["connection", "keep-alive", "transfer-encoding", "proxy-connection", "upgrade"] {
+            if st.headers.iter().any(|(n, _)| n == hop) {
+                problems.push(format!("hop-by-hop header {} reached the HTTP/3 client", hop));
+            }
+        }
+        if unframed {
+            ctx.oracle_failure(
+                "unframed-request-body",
+                &format!("forwarded request has a body but neither Content-Length nor Transfer-Encoding: {} [{}]", desc, req_s[..head_end].replace("\r\n", "\\r\\n")),
+            );
+        }
+        if !problems.is_empty() {
+            ctx.oracle_failure("live-forward", &format!("{}: {} [origin saw: {}]", desc, problems.join("; "), req_s[..head_end.min(req_s.len())].replace("\r\n", "\\r\\n")));
+        }
+    }
+}
+
 pub fn run(ctx: &mut Ctx) {
     let n = if ctx.thorough() { 20000 } else { 2500 };
     let mut cases: Vec<Case> = vec![];
